@@ -12,36 +12,63 @@ import (
 const notRun = "<not run: task ended by runtime.Goexit in an earlier op>"
 
 // program returns the function a task executes: its ops in order, each
-// recorded into outs[t].
-func (w *World) program(t int, outs [][]string) func() {
+// recorded (still unrendered) into raw[t].
+func (w *World) program(t int, raw [][]lazyOut) func() {
 	return func() {
 		pt := &w.rs.pt[t]
 		for i, op := range w.c.Tasks[t].Ops {
 			pt.op = i
 			zzsim.OpStart(i)
-			pt.side = pt.side[:0]
+			pt.side = nil
 			pt.termHit = false
-			outs[t][i] = "<in flight: ended by runtime.Goexit>"
+			raw[t][i].state = 1
 			o := w.execOp(t, op)
-			if len(pt.side) > 0 {
-				s := append([]string(nil), pt.side...)
-				sort.Strings(s)
-				o += "\n  side: " + strings.Join(s, "\n  side: ")
-			}
-			outs[t][i] = o
+			raw[t][i] = lazyOut{state: 2, out: o, side: pt.side}
 		}
 	}
 }
 
-func newOuts(c *Case) [][]string {
-	outs := make([][]string, len(c.Tasks))
-	for t := range outs {
-		outs[t] = make([]string, len(c.Tasks[t].Ops))
-		for i := range outs[t] {
-			outs[t][i] = notRun
+// lazyOut is an op's outcome before rendering. state: 0 not run, 1 in flight
+// when the task ended (runtime.Goexit), 2 finished.
+type lazyOut struct {
+	state int
+	out   func() string
+	side  []func() string
+}
+
+func render(raw [][]lazyOut) [][]string {
+	outs := make([][]string, len(raw))
+	for t := range raw {
+		outs[t] = make([]string, len(raw[t]))
+		for i, lo := range raw[t] {
+			switch lo.state {
+			case 0:
+				outs[t][i] = notRun
+			case 1:
+				outs[t][i] = "<in flight: ended by runtime.Goexit>"
+			default:
+				o := lo.out()
+				if len(lo.side) > 0 {
+					var ss []string
+					for _, f := range lo.side {
+						ss = append(ss, f())
+					}
+					sort.Strings(ss)
+					o += "\n  side: " + strings.Join(ss, "\n  side: ")
+				}
+				outs[t][i] = o
+			}
 		}
 	}
 	return outs
+}
+
+func newRaw(c *Case) [][]lazyOut {
+	raw := make([][]lazyOut, len(c.Tasks))
+	for t := range raw {
+		raw[t] = make([]lazyOut, len(c.Tasks[t].Ops))
+	}
+	return raw
 }
 
 func schedConfig(c *Case, est uint64) zzsim.Config {
@@ -108,13 +135,13 @@ func runCase(c *Case) *Result {
 	zzsim.SetMode(zzsim.ModeOff)
 	ref := buildWorld(c, nil, true)
 	ref.rs.solo = true
-	want := newOuts(c)
+	wantRaw := newRaw(c)
 	var solo uint64
 	for t := range c.Tasks {
 		ref.rs.soloTask = t
 		zzsim.SetMode(zzsim.ModeCount)
 		done := make(chan struct{})
-		prog := ref.program(t, want)
+		prog := ref.program(t, wantRaw)
 		go func() {
 			defer close(done)
 			prog()
@@ -133,11 +160,11 @@ func runCase(c *Case) *Result {
 		res.Detail = "setup diagnostics differ between two parses of the same sources"
 		return res
 	}
-	got := newOuts(c)
+	gotRaw := newRaw(c)
 	fns := make([]func(), len(c.Tasks))
 	var wg sync.WaitGroup
 	for t := range c.Tasks {
-		prog := sh.program(t, got)
+		prog := sh.program(t, gotRaw)
 		wg.Add(1)
 		fns[t] = func() {
 			defer wg.Done()
@@ -150,6 +177,7 @@ func runCase(c *Case) *Result {
 	res.Stats = st
 
 	// ---- oracle ----
+	want, got := render(wantRaw), render(gotRaw)
 	h := uint64(0xcbf29ce484222325)
 	for t := range want {
 		for i := range want[t] {
